@@ -6,6 +6,7 @@ from typing import Optional
 
 from ..core import AnalysisError, FuncInfo, Project, attr_chain, const_int, const_str, expand, unparse, walk_local
 from ..absint import PyRaise, Unknown
+from ..order import list_value_order
 from ..intdec import (CAT_NAMES, SPEC_CUTS, LengthFacts, category, closure_int_literals, fmt_regions, literals_compared,
                       regions, residual, residual_multi, sample_points, reachable_int_literals)
 
@@ -288,7 +289,7 @@ def check_site(ctx, prj, fi: FuncInfo, facts: LengthFacts, spec: dict, consts=No
 def rule_R1(ctx, prj: Project, facts: LengthFacts):
     ctx.rule("R1", "every comparison of a function length with an integer literal partitions the lengths as a "
                    "coarsening of {<=15 | 16..30 | 31..60 | >60} and maps each region to the outcome the "
-                   "specification gives for its category (site table of DESIGN 4/C02-R1)", floor=11)
+                   "specification gives for its category (site table of DESIGN 4/C02-R1)", floor=10)
     for q, spec in SITES.items():
         check_site(ctx, prj, prj.func(q), facts, spec)
     # cut-parameter sites: one instance per caller, the literal flows in through the argument
@@ -312,10 +313,27 @@ def rule_R1(ctx, prj: Project, facts: LengthFacts):
                 if arg is None:
                     arg = fi.param_default(cut)
                 val = const_int(expand(cfi, arg)) if arg is not None else None
+                if val is None and arg is not None:
+                    try:
+                        from ..absint import MiniInterp
+                        v2 = MiniInterp(prj).ev(arg, {}, cfi)
+                        val = v2 if isinstance(v2, int) and not isinstance(v2, bool) else None
+                    except (Unknown, PyRaise):
+                        val = None
                 if val is None:
                     raise AnalysisError(f"C02-R1: {cfi.disp} passes a non-literal cut {unparse(arg)} to {fi.local}")
-                seen_callers.add(caller_q)
-                if caller_q in spec["callers"]:
+                # a newly extracted helper stands for the baseline functions that call it
+                from ..inline import baseline_names
+                eff, todo = set(), [caller_q]
+                while todo:
+                    q0 = todo.pop()
+                    if q0 in eff:
+                        continue
+                    eff.add(q0)
+                    if q0 not in baseline_names():
+                        todo += list(prj.callgraph.callers_of(q0))
+                seen_callers |= eff
+                if eff & spec["callers"]:
                     check_site(ctx, prj, fi, facts, spec, consts={cut: val}, inst=cfi.local)
                 else:
                     # other callers: must at least be a coarsening (e.g. threshold 0 = everything)
@@ -489,40 +507,42 @@ def _is_value_key_desc(call: ast.Call) -> Optional[str]:
     return "desc" if (r != neg) else "asc"
 
 
-def rule_R3(ctx, prj: Project):
-    ctx.rule("R3", "check lists a file's functions longest first; the summary count is hard_to_maintain + "
-                   "unmaintainable and is shown exactly when that sum is positive; the findings list is sorted "
-                   "by length descending", floor=4)
-    # (a) list handed to CheckResult.add
-    fi = prj.func("codelimit.commands.check:check_file")
-    found = False
-    for call in fi.calls():
-        if isinstance(call.func, ast.Attribute) and call.func.attr == "add" and "check_result" in unparse(call.func.value):
-            if len(call.args) < 2:
-                continue
-            found = True
-            arg = expand(fi, call.args[1])
-            order = None
-            if isinstance(arg, ast.Call) and isinstance(arg.func, ast.Name) and arg.func.id == "sorted":
-                order = _is_value_key_desc(arg)
-            else:
-                # in-place sort of the same list before the call
-                nm = call.args[1].id if isinstance(call.args[1], ast.Name) else None
-                for c2 in fi.calls():
-                    if isinstance(c2.func, ast.Attribute) and c2.func.attr == "sort" and isinstance(c2.func.value, ast.Name) \
-                            and c2.func.value.id == nm and c2.lineno < call.lineno:
-                        order = _is_value_key_desc(c2)
-            if order == "desc":
-                ctx.ok("R3", fi.site(call), "check_file: list passed to CheckResult.add is sorted by .value descending")
-            elif order == "asc":
-                ctx.viol("R3", "check_file/order", fi.site(call), "functions of a file are listed shortest first (required: longest first)")
-            else:
-                ctx.viol("R3", "check_file/order", fi.site(call),
-                         f"the list passed to CheckResult.add is not sorted by length descending: {unparse(arg)[:120]}")
-    if not found:
-        raise AnalysisError("C02-R3: check_file no longer passes its findings to check_result.add")
-    # (b) summary number and its guard in CheckResult.report
-    rep = prj.func("codelimit.common.CheckResult:CheckResult.report")
+def _report_rows(ctx, prj, rep):
+    import re
+    from ..evalsite import deep_strs, new_instance, run_site
+    bad_count = bad_guard = None
+    rows = 0
+    for hard in (0, 2):
+        for unm in (0, 5):
+            me = new_instance(prj, rep.cls)
+            if "hard_to_maintain" not in me.fields or "unmaintainable" not in me.fields:
+                raise Unknown("CheckResult has no hard_to_maintain / unmaintainable counters")
+            me.fields["hard_to_maintain"], me.fields["unmaintainable"] = hard, unm
+            run = run_site(prj, rep, [], self_obj=me)
+            if run.raised is not None:
+                raise Unknown(f"raises {run.raised.name}")
+            texts = deep_strs([a for _, aa, kw in run.effects for a in list(aa) + list(kw.values())])
+            nums = {int(x) for t in texts for x in re.findall(r"\d+", t)} - {0}
+            rows += 1
+            total = hard + unm
+            if total > 0 and nums and nums != {total}:
+                bad_count = bad_count or (hard, unm, sorted(nums))
+            if (total in nums) != (total > 0) and not (total > 0 and nums and nums != {total}):
+                bad_guard = bad_guard or (hard, unm, bool(nums))
+    if bad_count:
+        ctx.viol("R3", "CheckResult.report/summary-count", rep.site(),
+                 f"with hard_to_maintain={bad_count[0]}, unmaintainable={bad_count[1]} the summary prints {bad_count[2]}; required: their sum {bad_count[0] + bad_count[1]}")
+    else:
+        ctx.ok("R3", rep.site(), "CheckResult.report: summary count = hard_to_maintain + unmaintainable (evaluated, 4 rows)")
+    if bad_guard:
+        ctx.viol("R3", "CheckResult.report/summary-guard", rep.site(),
+                 f"with hard_to_maintain={bad_guard[0]}, unmaintainable={bad_guard[1]} the 'functions need refactoring' count is "
+                 f"{'shown' if bad_guard[2] else 'not shown'}; required exactly when the sum is positive")
+    else:
+        ctx.ok("R3", rep.site(), "CheckResult.report: count shown exactly when hard_to_maintain + unmaintainable > 0 (4 rows)")
+
+
+def _report_syntactic(ctx, prj, rep):
     sums = []
     for n in rep.walk():
         if isinstance(n, ast.FormattedValue):
@@ -561,23 +581,47 @@ def rule_R3(ctx, prj: Project):
                  f"{'shown' if bad[2] else 'not shown'}; required exactly when the sum is positive")
     else:
         ctx.ok("R3", rep.site(), "CheckResult.report: count shown exactly when hard_to_maintain + unmaintainable > 0 (4 rows)")
+
+
+def rule_R3(ctx, prj: Project):
+    ctx.rule("R3", "check lists a file's functions longest first; the summary count is hard_to_maintain + "
+                   "unmaintainable and is shown exactly when that sum is positive; the findings list is sorted "
+                   "by length descending", floor=4)
+    # (a) list handed to CheckResult.add
+    fi = prj.func("codelimit.commands.check:check_file")
+    found = False
+    for call in fi.calls():
+        if isinstance(call.func, ast.Attribute) and call.func.attr == "add" and "check_result" in unparse(call.func.value):
+            if len(call.args) < 2:
+                continue
+            found = True
+            arg = expand(fi, call.args[1])
+            order = list_value_order(prj, fi, call.args[1], call)
+            if order is None or order == "other":
+                raise AnalysisError(f"C02-R3: {fi.site(call)}: order of the list passed to CheckResult.add not understood ({unparse(arg)[:80]})")
+            if order == "desc":
+                ctx.ok("R3", fi.site(call), "check_file: list passed to CheckResult.add is sorted by .value descending")
+            elif order == "asc":
+                ctx.viol("R3", "check_file/order", fi.site(call), "functions of a file are listed shortest first (required: longest first)")
+            else:
+                ctx.viol("R3", "check_file/order", fi.site(call),
+                         f"the list passed to CheckResult.add is not sorted by length descending: {unparse(arg)[:120]}")
+    if not found:
+        raise AnalysisError("C02-R3: check_file no longer passes its findings to check_result.add")
+    # (b) summary number and its guard in CheckResult.report: evaluated with the console calls recorded as effects
+    rep = prj.func("codelimit.common.CheckResult:CheckResult.report")
+    try:
+        _report_rows(ctx, prj, rep)
+    except (Unknown, PyRaise) as e:
+        ctx.info(f"CheckResult.report not evaluable ({e}); falling back to the syntactic form")
+        _report_syntactic(ctx, prj, rep)
     # (c) findings list order
     fr = prj.func("codelimit.common.report.Report:Report.all_report_units_sorted_by_length_asc")
     rets = [n for n in fr.walk() if isinstance(n, ast.Return) and n.value is not None]
-    order = None
-    for r in rets:
-        e = r.value
-        if isinstance(e, ast.Name):
-            # last definition reaching the return: take the sorted(...) definition if any
-            from ..core import local_defs
-            for val, st in local_defs(fr, e.id):
-                if isinstance(val, ast.Call) and isinstance(val.func, ast.Name) and val.func.id == "sorted":
-                    order = _is_value_key_desc(val)
-            for c2 in fr.calls():
-                if isinstance(c2.func, ast.Attribute) and c2.func.attr == "sort" and unparse(c2.func.value) == e.id:
-                    order = _is_value_key_desc(c2)
-        elif isinstance(e, ast.Call) and isinstance(e.func, ast.Name) and e.func.id == "sorted":
-            order = _is_value_key_desc(e)
+    orders = {list_value_order(prj, fr, r.value, r, attr="measurement.value") for r in rets}
+    order = orders.pop() if len(orders) == 1 else None
+    if order is None or order == "other":
+        raise AnalysisError(f"C02-R3: {fr.disp}: order of the returned list not understood")
     if order == "desc":
         ctx.ok("R3", fr.site(), "Report.all_report_units_sorted_by_length_asc returns the units sorted by length descending")
     else:
